@@ -111,9 +111,24 @@ def oracle(case, out):
                 and s['csent'] == prev:
             return 'step %d: no progress although the client socket accepted k=%d > 0 with %d bytes pending' % (i, k, steps[i - 1]['cpend'])
         prev = s['csent']
+    # the remainder the parser reports behind the first request must be the tail of the segment that completed it
+    for ev, orc in zip(out['events'], out['oracles']):
+        if isinstance(orc['req'], list) and orc['req'][0] in ('proxy', 'serve') and orc['req'][-1]:
+            if not (isinstance(ev.get('c_recv'), (bytes, bytearray)) and bytes(ev['c_recv']).endswith(orc['req'][-1])):
+                return 'bytes handed to the plugin behind the first request are not the tail of the segment'
     if is_tunnel:
+        # everything the client sent behind the CONNECT request (also in the same segment) reaches the upstream once, in order
+        stream = b''.join(bytes(ev['c_recv']) for ev, st in zip(out['events'], steps)
+                          if st['c_taken'] and isinstance(ev.get('c_recv'), (bytes, bytearray)))
+        cut_at = stream.find(b'\r\n\r\n')
+        sent_by_client = stream[cut_at + 4:] if cut_at >= 0 else b''
+        if fin['uout'] + fin['upend'] != sent_by_client:
+            return ('tunnel client->upstream stream broken: upstream received %d + %d buffered, client sent %d bytes behind the CONNECT '
+                    '(first difference at %d)' % (len(fin['uout']), len(fin['upend']), len(sent_by_client),
+                                                  next((i for i, (a, b) in enumerate(zip(fin['uout'] + fin['upend'], sent_by_client)) if a != b),
+                                                       min(len(fin['uout'] + fin['upend']), len(sent_by_client)))))
         if fin['uout'] + fin['upend'] != fin['clrcvd']:
-            return 'tunnel client->upstream stream broken: upstream received %d + %d buffered, client sent %d' % (
+            return 'tunnel client->upstream stream broken: upstream received %d + %d buffered, plugin was handed %d' % (
                 len(fin['uout']), len(fin['upend']), len(fin['clrcvd']))
         for i, s in enumerate(steps):
             if s['established'] and s['usent'] + s['upend'] != s['clrcvd_len']:
